@@ -144,7 +144,7 @@ Proof.
 Qed.
 Print Assumptions print_parse_ternary_refuted.
 
-(* ---- finding F21: "an expression gives the same result evaluated directly or after
+(* ---- finding F34: "an expression gives the same result evaluated directly or after
    compilation with its constants folded" is FALSE of the faithful model: compile folds an
    O_COLON node whose branches became constants, and folding evaluates it.
    Witness true ? (x = 1; 2) : 3. ---- *)
@@ -156,7 +156,7 @@ Proof.
 Qed.
 Print Assumptions fold_constants_ternary_refuted.
 
-(* ---- finding F22: "the printed text evaluates to the same value" is FALSE of the faithful
+(* ---- finding F35: "the printed text evaluates to the same value" is FALSE of the faithful
    model even without ?: - the printed literals are lexed with KEEP_PREC, which changes the
    display-zero truth test.  Witness $0.01 * $0.01 * $0.01 & 5. ---- *)
 Theorem print_parse_value_refuted :
@@ -171,7 +171,7 @@ Proof.
 Qed.
 Print Assumptions print_parse_value_refuted.
 
-(* ---- findings F23, F24: full lexical scoping ("a closure means what it meant where it was
+(* ---- findings F36, F37: full lexical scoping ("a closure means what it meant where it was
    written") is FALSE of the faithful model for lambda PARAMETERS, which are looked up
    dynamically at call time.  Witnesses: f(a) = (b -> a + b); (f(1))(2) fails although a = 1 was
    in scope where the lambda was written; f(a) = (y = a * 2; g(a) = y; g(5)); f(1) gives 10,
